@@ -567,6 +567,16 @@ theorem recalc_history_is_a_lazy_history (lt : Node → Node → Prop) (ho : Str
     Admissible lt (env0, {}) (expand (env0, {}) ops) :=
   runR_eq_run lt ho ops (env0, {}) hw0 (CI.empty env0 lt) hadm
 
+/-- … as ONE statement: whatever holds of every pair (definitions, mechanism state) reachable by an
+admissible history of the thirteen-operation language holds of every pair reachable by an admissible
+history of the fourteen-operation language. -/
+theorem every_lazy_theorem_holds_with_recalc (lt : Node → Node → Prop) (ho : StrictOrder lt) (env0 : Env)
+    (hw0 : WF env0 lt) (P : Env × St → Prop)
+    (hP : ∀ ops : List Op, Admissible lt (env0, {}) ops → P (run (env0, {}) ops))
+    (ops : List OpR) (hadm : AdmissibleR lt (env0, {}) ops) : P (runR (env0, {}) ops) := by
+  obtain ⟨e, a⟩ := recalc_history_is_a_lazy_history lt ho env0 hw0 ops hadm
+  rw [e]; exact hP _ a
+
 /-- **the shape of the lazy history**: nothing for the empty history; an operation of the thirteen is
 kept; a recalculating assignment `n := v` becomes the lazy assignment `n := v` followed by evaluations of
 former leaf dependents of `n` (`ts`: elements of `St.startNodesFrom` of the state BEFORE the assignment,
@@ -668,6 +678,12 @@ example (v w : Val) (hv : (evalTop (runR (C06.kEnv, {}) kOpsR).1 (3, []) (runR (
             (run (C06.kEnv, {}) (noEvals (expand (C06.kEnv, {}) kOpsR))).2).1 = .ok w) : v = w :=
   live_answer_equals_edits_only_answer_with_recalc idLt idLt_strict C06.kEnv C06.kEnv_wf kOpsR kOpsR_admissible
     (3, []) v w hv hw
+
+-- `every_lazy_theorem_holds_with_recalc` used: C06's invariant "an input is not a reader of a reference"
+-- style statements transfer; here with `P` = "the state has certificates"
+example : CI (runR (C06.kEnv, {}) kOpsR).1 idLt (runR (C06.kEnv, {}) kOpsR).2 :=
+  every_lazy_theorem_holds_with_recalc idLt idLt_strict C06.kEnv C06.kEnv_wf (fun st => CI st.1 idLt st.2)
+    (fun ops hadm => (reachable_ci idLt idLt_strict C06.kEnv C06.kEnv_wf ops hadm).1) kOpsR kOpsR_admissible
 
 /-! ### the hypothesis `NoCatchEnv` is needed
 
